@@ -189,7 +189,7 @@ func MatchesPattern(s, pattern string) bool {
 
 // SchemaPattern returns the first "pattern" found in the published schema file data/schemas/<rel>.
 func SchemaPattern(rel string) string {
-	data, err := os.ReadFile("/repo/data/schemas/" + rel)
+	data, err := os.ReadFile(repoRoot()+"/data/schemas/" + rel)
 	if err != nil {
 		return "<unreadable " + rel + ">"
 	}
@@ -203,7 +203,7 @@ func SchemaPattern(rel string) string {
 // SchemaValue returns the first value (string, or integer in decimal) of member key found in the published schema
 // file data/schemas/<rel>, "" when there is none: "pattern", "format", "minLength", "maxLength".
 func SchemaValue(rel, key string) string {
-	data, err := os.ReadFile("/repo/data/schemas/" + rel)
+	data, err := os.ReadFile(repoRoot()+"/data/schemas/" + rel)
 	if err != nil {
 		return ""
 	}
@@ -280,6 +280,11 @@ func BindSignature(sig, key, payload interface{}) {}
 func NewSignature(key, payload interface{}) interface{} { return nil }
 func BindParsed(v interface{})                    {}
 
+// StraySyntax marks, in a token list handed to the json.Decoder stub, a byte at which the real decoder reports a
+// syntax error (a stray closing delimiter or colon at top level): Token returns an error there; More reports false
+// for a closing delimiter and true otherwise, as the real implementation does.
+type StraySyntax string
+
 // BindKeyPair (symbolic runs): pub is the public half of the private key object priv; Sign / Public on priv are
 // then contract stubs (Sign yields a signature bound to pub and to a deep copy of the payload).
 func BindKeyPair(priv, pub interface{}) {}
@@ -294,7 +299,7 @@ func DigestOf(token int64) string             { return "" }
 // data/addons, data/regimes and data/catalogues: its allowed codes and / or its pattern.
 func PublishedExtension(key string) (values []string, pattern string, found bool) {
 	for _, dir := range []string{"addons", "regimes", "catalogues"} {
-		files, _ := filepath.Glob("/repo/data/" + dir + "/*.json")
+		files, _ := filepath.Glob(repoRoot()+"/data/" + dir + "/*.json")
 		sort.Strings(files)
 		for _, f := range files {
 			data, err := os.ReadFile(f)
@@ -336,7 +341,7 @@ func Published(kind, name string) []string {
 	}
 	switch kind {
 	case "currencies":
-		files, _ := filepath.Glob("/repo/data/currency/*.json")
+		files, _ := filepath.Glob(repoRoot()+"/data/currency/*.json")
 		sort.Strings(files)
 		for _, f := range files {
 			var list []struct {
@@ -349,7 +354,7 @@ func Published(kind, name string) []string {
 			}
 		}
 	case "regimes", "addons":
-		files, _ := filepath.Glob("/repo/data/" + kind + "/*.json")
+		files, _ := filepath.Glob(repoRoot()+"/data/" + kind + "/*.json")
 		sort.Strings(files)
 		for _, f := range files {
 			var doc struct {
@@ -374,7 +379,7 @@ func Published(kind, name string) []string {
 				} `json:"list"`
 			} `json:"tags"`
 		}
-		if readJSON("/repo/data/"+name+".json", &doc) {
+		if readJSON(repoRoot()+"/data/"+name+".json", &doc) {
 			for _, t := range doc.Tags {
 				if t.Schema == "bill/invoice" {
 					for _, k := range t.List {
@@ -417,3 +422,11 @@ type OpaqueError struct {
 
 func (e *OpaqueError) Error() string { return e.Msg }
 func (e *OpaqueError) Unwrap() error { return e.Wrapped }
+
+// repoRoot: /repo, or the checkout named by VERIF_REPO.
+func repoRoot() string {
+	if d := os.Getenv("VERIF_REPO"); d != "" {
+		return d
+	}
+	return "/repo"
+}
